@@ -8,7 +8,7 @@ ROUND11 = {
  "C06": "Round 11: the default command runs only when standard input is a terminal, and standard input is read otherwise (C06-R17); every posted match request gets a fresh sequence number (C13-R12).",
  "C07": "Round 11: every merger that is posted — also one taken from the cache — is stamped with the final flag of the request (C07-R13); awkTokenizer computes byte offsets in a byte loop (C07-R14).",
  "C08": "Round 11: the cache key Pattern.AsString is the query text itself (C08-R30).",
- "C09": "Round 11: each action name appends the constant of that name (C09-R26, a convention check with a table of the documented aliases); PassMerger stores the revision it is given (C08-R23).",
+ "C09": "Round 11: each action name appends the constant of that name (C09-R26, a convention check with a table of the documented aliases); PassMerger stores the revision it is given (C08-R23); the query limit is applied behind every action list of an iteration (C09-R27).",
  "C10": "Round 11: what searchRequest.merge inherits for nth depends on nth only (C10-R15); all spellings of --delimiter go through delimiterRegexp (C10-R16).",
  "C11": "Round 11: Terminal.ansi is Options.Ansi, the flag the reader side uses (C11-R26); Chars.Prepend reads the slice as bytes only when the text is held as bytes (C11-R27).",
  "C14": "Round 11: searchRequest.merge removes the temp files of the command it discards (C14-R23); the terminal state is saved by LightRenderer.Init only (C14-R24, who-may-call).",
